@@ -26,16 +26,7 @@ def setClientList (cs : List Client) (c : Client) : List Client :=
 
 /-- the endpoint program an operation runs (none for harness-level state changes) -/
 def Op.prog (s : MState) : Op → Option (Prog Out)
-  | .authorize q => some do
-      match ← call (.getClient q.clientId) with
-      | .client c =>
-        -- the part of `NewAuthorizeRequest` the history driver exercises: requested scopes and
-        -- audiences are checked against the registration before any handler runs
-        if !scopesAllowed s.cfg c (appendAllUniq [] q.scopes) then return .err .invalid_scope
-        match audienceMatch s.cfg.audStrategy c.audience q.aud with
-        | some e => return .err e
-        | none => authorizeProg s.cfg s.now s.minNonce c q
-      | _ => return .err .invalid_client
+  | .authorize q => some (authorizeProg s.cfg s.now s.minNonce q)
   | .redeem q => some (redeemProg s.cfg s.now q)
   | .refresh q => some (refreshProg s.cfg s.now q)
   | .revoke q => some (revokeProg q)
